@@ -32,7 +32,6 @@ var notYet = []struct{ ID, Reason string }{
 	{"C14", "simulation target by DESIGN.md §2/§5, but its harness is not built yet (work in progress): not claimed until the check exists"},
 	{"C17", "simulation target by DESIGN.md §2/§5, but its harness is not built yet (work in progress): not claimed until the check exists"},
 	{"C21", "simulation target by DESIGN.md §2/§5, but its harness is not built yet (work in progress): not claimed until the check exists"},
-	{"C22", "simulation target by DESIGN.md §2/§5, but its harness is not built yet (work in progress): not claimed until the check exists"},
 	{"C23", "simulation target by DESIGN.md §2/§5, but its harness is not built yet (work in progress): not claimed until the check exists"},
 	{"C24", "simulation target by DESIGN.md §2/§5, but its harness is not built yet (work in progress): not claimed until the check exists"},
 	{"C25", "simulation target by DESIGN.md §2/§5, but its harness is not built yet (work in progress): not claimed until the check exists"},
@@ -136,6 +135,7 @@ func writeManifest() error {
 }
 
 var harnessKind = map[string]string{
+	"h2sched": "H2 schedule simulation: real accumulation round under a seeded scheduler, worker-pool knob and simulated map iteration order; N executions must agree",
 	"h3acc":   "H3 accumulation-transaction simulation: real PVM.Psi_A on generated programs/states, host calls observed through wrappers in PVM.AccumulateOmegas, abort points injected through the gas limit, reference-model oracles in exact integers",
 	"h5cache": "H5 component-history simulation: root-computation histories on a live ChainState with the leaf-cache capacity as a randomised knob, cached vs uncached differential oracle",
 	"h1tel":   "H1 telemetry simulation: real tcpClient goroutines under a seeded park/release scheduler in a synctest bubble, simulated dialer/conn with fault injection, receiver-model oracle",
